@@ -69,6 +69,23 @@ def claimRun (ttl : Int) : Store → List String → List String → Option (Lis
       | none => none
     | _ => none
 
+/-- `claimz`: nodes in different time zones handle ticks on time (lag ≈ 0); the key is the tick -/
+def zoneRun (ttl : Int) : Store → List String → List String → List Nat → Option (List String)
+  | _, [], acc, ticks => some (acc.reverse ++ [s!"keys={ticks.eraseDups.length}/{ticks.eraseDups.length}"])
+  | st, a :: as, acc, ticks =>
+    match words a with
+    | ["z", tick, _, store] =>
+      match tick.toNat?, store.toInt? with
+      | some tick, some store =>
+        let (st', o) := claim (fun _ => 0) ttl st { tick := tick, t := store, k := -store }
+        let r := match o with
+          | .win => s!"win,t{ttl}"
+          | .lose => s!"lose,t{ttl}"
+          | .skip => "skip"
+        zoneRun ttl st' as (r :: acc) (tick :: ticks)
+      | _, _ => none
+    | _ => none
+
 def ttlArg (a : String) : Option (Option Int) :=
   if a == "err1" || a == "err2" then some none else a.toInt?.map some
 
@@ -91,6 +108,12 @@ def model (line : String) : String :=
   | "claim" :: ttl :: _ =>
     match line.splitOn "|", ttl.toInt? with
     | [_, atts], some ttl => match claimRun ttl [] (splitOps atts) [] with
+      | some out => " ".intercalate out
+      | none => "bad-case"
+    | _, _ => "bad-case"
+  | "claimz" :: ttl :: _ =>
+    match line.splitOn "|", ttl.toInt? with
+    | [_, atts], some ttl => match zoneRun ttl [] (splitOps atts) [] [] with
       | some out => " ".intercalate out
       | none => "bad-case"
     | _, _ => "bad-case"
@@ -179,6 +202,20 @@ def judge (line : String) : String :=
       if (o.splitOn "extra-delivery").length > 1 then "bad a node that did not win the claim delivered the tick" else
       match judgeClaim ttl (splitOps atts) (words o) with
       | some b => b
+      | none => "ok"
+    | _, _ => "bad-case"
+  | "claimz" :: ttl :: _ =>
+    match c.splitOn "|", ttl.toInt? with
+    | [_, atts], some _ =>
+      if (o.splitOn "extra-delivery").length > 1 then "bad a node that did not win the claim delivered the tick" else
+      -- every node is on time and unskewed: at most one winner per tick, whatever its time zone
+      let rows := ((splitOps atts).zip (words o)).filterMap fun (a, r) =>
+        match words a with
+        | ["z", tick, _, _] => some (tick, r)
+        | _ => none
+      let ticks := (rows.map (·.1)).eraseDups
+      match ticks.find? (fun tk => !atMostOne ((rows.filter fun r => r.1 == tk && r.2.startsWith "win").length)) with
+      | some tk => s!"bad tick {tk} was won by more than one node (nodes in different time zones built different claim keys for the same instant)"
       | none => "ok"
     | _, _ => "bad-case"
   | ["ttl", a] =>
